@@ -293,6 +293,8 @@ def parse_one(text, name):
 def native_replay(target, model):
     """call the real C function (compiled from the same sources by the system compiler, -O0) on the
     model's operands in a subprocess and compare with Python's own arithmetic"""
+    if target.kind.startswith("conv"):
+        return native_replay_conv(target, model)
     args = [model.get(k) for k in sorted(model) if k.startswith("arg_")]
     if not args or any(not isinstance(a, int) for a in args):
         return {"confirmed": False, "note": "model has no integer operands"}
@@ -337,6 +339,63 @@ print(json.dumps({{'result': r, 'raised': err}}))
     else:
         out["confirmed"] = exp is not None and (got["result"] != exp.get("result") or got["raised"] != exp.get("raised"))
     return out
+
+
+def native_replay_conv(target, model):
+    """the model fixes what the CPython API call answered (result, overflow flag, error pending); a Python
+    object with exactly that behaviour is passed to the real conversion function"""
+    import json
+    import sys
+
+    r = next((v for k, v in model.items() if k.startswith("ret!PyLong_As")), None)
+    ov = next((v for k, v in model.items() if k.startswith("out!PyLong_As")), 0)
+    err = str(model.get("api_error_pending")) == "True"
+    if err:
+        obj_src = "'not an int'"
+    elif isinstance(ov, int) and ov != 0:
+        obj_src = f"{ov} * 2 ** 80"
+    elif isinstance(r, int):
+        obj_src = repr(r)
+    else:
+        return {"confirmed": False, "note": "model does not determine the converted object"}
+    bits = int(target.kind.split(":i")[-1])
+    spec = next(c for c in CONVERSIONS if c[0] == target.cname)
+    lo, hi, errv = spec[2], spec[3], spec[4]
+    try:
+        so = build_so()
+    except Exception as e:
+        return {"confirmed": False, "note": f"cannot build native library: {e}"}
+    ct = {64: "c_int64", 32: "c_int32", 16: "c_int16", 8: "c_uint8"}[bits]
+    code = f"""
+import ctypes, json
+lib = ctypes.PyDLL({so!r})
+f = getattr(lib, {target.cname!r})
+f.restype = ctypes.{ct}
+f.argtypes = [ctypes.py_object]
+obj = {obj_src}
+raised = None
+try:
+    r = f(obj)
+except BaseException as e:
+    r = None
+    raised = type(e).__name__
+print(json.dumps({{'result': r, 'raised': raised}}))
+"""
+    try:
+        p = subprocess.run([sys.executable, "-c", code], capture_output=True, text=True, timeout=60)
+    except subprocess.TimeoutExpired:
+        return {"confirmed": False, "note": "native call timed out"}
+    if p.returncode != 0 or not p.stdout.strip():
+        return {"confirmed": False, "inputs": obj_src, "note": "native call failed", "stderr": p.stderr[-300:]}
+    got = json.loads(p.stdout.strip().splitlines()[-1])
+    v = eval(obj_src) if not err else None
+    if err:
+        exp = {"result": None, "raised": "TypeError"}
+    elif lo <= v <= hi:
+        exp = {"result": v, "raised": None}
+    else:
+        exp = {"result": None, "raised": "ValueError"}
+    return {"inputs": obj_src, "observed": got, "expected": exp, "confirmed": got != exp}
 
 
 def expected_native(target, args):
@@ -515,6 +574,54 @@ def spec_fixed(name, w):
     return spec
 
 
+def spec_conv(name, bits, lo, hi, err):
+    """CPyLong_As<T>_(o): conversion of a Python int object to a fixed-width C integer.
+
+    Contract of the CPython API call it is built on (trusted): PyLong_AsLong[Long]AndOverflow(o, &ov)
+    either fails (an exception is pending, result -1, ov 0), or o is an int V and then result = V, ov = 0
+    when V fits a C long, else result = -1 and ov = sign(V) in {-1, +1}; PyErr_Occurred() is non-NULL
+    exactly while an exception is pending.
+    Specification: if the API call failed, the error value is returned and no further exception is set;
+    otherwise V in [lo, hi] is returned unchanged with no exception, and any other V sets ValueError and
+    returns the error value."""
+
+    def spec(be, params, p, tag):
+        if not isinstance(be, SEM.BV):
+            raise IR.Unsupported("conversion helpers use the bit-vector encoding")
+        api = [e for e in p.events if e[0] == "call" and e[1].startswith("PyLong_As")]
+        if len(api) != 1:
+            return [("one-api-call", z3.BoolVal(False))]
+        r = api[0][3]
+        outs = [a[1] for a in api[0][2] if isinstance(a, tuple) and a and a[0] == "out"]
+        if len(outs) != 1:
+            return [("overflow-out-parameter", z3.BoolVal(False))]
+        ov = outs[0]
+        ERR = z3.Bool("api_error_pending")
+        hyp = [z3.Or(ov == 0, ov == 1, ov == -1), z3.Implies(ERR, z3.And(r == -1, ov == 0)), z3.Implies(ov != 0, z3.And(r == -1, z3.Not(ERR)))]
+        for e in p.events:
+            if e[0] == "call" and e[1] == "PyErr_Occurred":
+                hyp.append((e[3] != 0) == ERR)
+        raises = [e[1] for e in p.events if e[0] == "raise"]
+        w = r.size()
+        oor = z3.Or(ov != 0, r < z3.BitVecVal(lo, w), r > z3.BitVecVal(hi, w))
+        errv = z3.BitVecVal(err % (2 ** bits), bits)
+        if raises:
+            goal = z3.And(z3.BoolVal(raises == ["PyExc_ValueError"]), z3.Not(ERR), oor, p.ret == errv)
+            return [("valueerror-only-for-an-int-out-of-range", z3.Implies(z3.And(hyp), goal))]
+        goal = z3.Or(z3.And(ERR, p.ret == errv), z3.And(z3.Not(ERR), z3.Not(oor), p.ret == z3.Extract(bits - 1, 0, r)))
+        return [("value-returned-unchanged-iff-in-range-else-error", z3.Implies(z3.And(hyp), goal))]
+
+    return spec
+
+
+CONVERSIONS = [
+    ("CPyLong_AsInt64_", 64, -(2 ** 63), 2 ** 63 - 1, -113),
+    ("CPyLong_AsInt32_", 32, -(2 ** 31), 2 ** 31 - 1, -113),
+    ("CPyLong_AsInt16_", 16, -(2 ** 15), 2 ** 15 - 1, -113),
+    ("CPyLong_AsUInt8_", 8, 0, 255, 239),
+]
+
+
 def spec_pred(name):
     def spec(be, params, p, tag):
         if name == "CheckShort":
@@ -556,6 +663,9 @@ def targets(tier):
     for n, ty in WR.FIXED:
         w = int(ty[3:-2])
         ts.append(IRTarget(f"fixed.{n}", n, f"fixed:i{w}", spec_fixed(n, w)))
+    for n, bits, lo, hi, err in CONVERSIONS:
+        ts.append(IRTarget(f"conv.{n}", n, f"conv:i{bits}", spec_conv(n, bits, lo, hi, err),
+                           note="int object -> fixed-width conversion against the CPython API contract of PyLong_AsLong[Long]AndOverflow / PyErr_Occurred"))
     # compile once in the parent so that the forked workers share the result
     compile_ir()
     return ts
